@@ -194,6 +194,41 @@ var c18Font9 = func() *font.Font {
 	return f
 }()
 
+// c18Synth builds a font that is not shipped: gw x gh pixels (gh >= 3), BytesPerRow = ceil(gw/8), glyph = f(ch);
+// the bits of the last byte that lie outside the glyph are set (a console must not look at them).
+func c18Synth(gw, gh uint32) *font.Font {
+	bpr := (gw + 7) / 8
+	f := &font.Font{Name: "verif" + strconv.Itoa(int(gw)) + "x" + strconv.Itoa(int(gh)), GlyphWidth: gw, GlyphHeight: gh, BytesPerRow: bpr,
+		Data: make([]byte, 256*bpr*gh)}
+	for ch := uint32(0); ch < 256; ch++ {
+		for r := uint32(0); r < gh; r++ {
+			for i := uint32(0); i < bpr; i++ {
+				v := byte((ch*31 + r*17 + i*7) * 2654435761 >> 13)
+				if i == 0 {
+					switch r {
+					case 0:
+						v = v&0x0f | byte(ch&0xf0) // the character code in the leftmost four pixels of rows 0 and 1
+					case 1:
+						v = v&0x0f | byte(ch&0x0f)<<4
+					case 2:
+						v |= 0x80
+					}
+				}
+				if ch == ' ' {
+					v = 0
+				}
+				if lo := i * 8; lo+8 > gw {
+					v |= 0xff >> (gw - lo) // garbage outside the glyph
+				}
+				f.Data[(ch*gh+r)*bpr+i] = v
+			}
+		}
+	}
+	return f
+}
+
+var c18SynthFonts = []*font.Font{c18Font9, c18Synth(5, 7), c18Synth(16, 6), c18Synth(17, 3)}
+
 type c18Fb struct {
 	*console.VesaFbConsole
 	w, h                 uint32 // cells
@@ -221,9 +256,13 @@ func newC18Fb(w, h uint32, rng *rand.Rand) c17Screen {
 	}
 	switch c.bpp {
 	case 15:
-		c.ci = &multiboot.FramebufferRGBColorInfo{RedPosition: 10, RedMaskSize: 5, GreenPosition: 5, GreenMaskSize: 5, BluePosition: 0, BlueMaskSize: 5}
+		c.ci = [](*multiboot.FramebufferRGBColorInfo){
+			{RedPosition: 10, RedMaskSize: 5, GreenPosition: 5, GreenMaskSize: 5, BluePosition: 0, BlueMaskSize: 5},
+			{RedPosition: 0, RedMaskSize: 5, GreenPosition: 5, GreenMaskSize: 5, BluePosition: 10, BlueMaskSize: 5}}[rng.Intn(2)]
 	case 16:
-		c.ci = &multiboot.FramebufferRGBColorInfo{RedPosition: 11, RedMaskSize: 5, GreenPosition: 5, GreenMaskSize: 6, BluePosition: 0, BlueMaskSize: 5}
+		c.ci = [](*multiboot.FramebufferRGBColorInfo){
+			{RedPosition: 11, RedMaskSize: 5, GreenPosition: 5, GreenMaskSize: 6, BluePosition: 0, BlueMaskSize: 5},
+			{RedPosition: 0, RedMaskSize: 5, GreenPosition: 5, GreenMaskSize: 6, BluePosition: 11, BlueMaskSize: 5}}[rng.Intn(2)]
 	case 32:
 		// XRGB, XBGR and the layouts with a colour component in the fourth byte of a pixel: RGBX, BGRX
 		c.ci = [](*multiboot.FramebufferRGBColorInfo){rgb(16, 8, 0), rgb(0, 8, 16), rgb(24, 16, 8), rgb(8, 16, 24)}[rng.Intn(4)]
@@ -237,20 +276,20 @@ func newC18Fb(w, h uint32, rng *rand.Rand) c17Screen {
 	if c.bpp == 8 {
 		c.mask = 0xff
 	}
-	fi := rng.Intn(4)
+	fi := rng.Intn(3 + len(c18SynthFonts))
 	if w*h > 600 {
 		fi = rng.Intn(2) // keep big screens at a size the byte-wise Scroll of the driver handles quickly
 	}
-	if fi == 3 {
-		c.f = c18Font9
+	if fi >= 3 {
+		c.f = c18SynthFonts[fi-3]
 	} else if c.f = font.FindByName(c18Fonts[fi]); c.f == nil {
 		c.f = c18Font9
 	}
 	c.gl = c18GlyphsOf(c.f)
-	c.offY = []uint32{0, 0, 5, 13}[rng.Intn(4)]
+	c.offY = []uint32{0, 0, 1, 5, 13, 64}[rng.Intn(6)]
 	c.pw = w*c.f.GlyphWidth + uint32(rng.Intn(int(c.f.GlyphWidth)))
 	c.ph = c.offY + h*c.f.GlyphHeight + uint32(rng.Intn(int(c.f.GlyphHeight)))
-	c.pitch = c.pw*c.bytesPP + []uint32{0, 0, 1, 3, 4, 7, 17}[rng.Intn(7)]
+	c.pitch = c.pw*c.bytesPP + []uint32{0, 0, 1, 3, 4, 7, 17, 32, 255, 1000}[rng.Intn(10)]
 	c.fb, c.before, c.after = c18Mem(int(c.ph*c.pitch), rng)
 	c.VesaFbConsole = console.NewVesaFbConsole(c.pw, c.ph, uint8(c.bpp), c.pitch, c.ci, 0xe0000000)
 	var asked uintptr
